@@ -34,11 +34,19 @@ TIE_HUB = [(f"TieHub.{n}", "Relay.Tie.Hub") for n in
             "broadcast_out", "broadcast_only_same_topic_not_self", "broadcast_reaches_every_ready_target", "broadcast_at_most_once",
             "broadcast_count_le_one", "broadcast_filed", "broadcast_wf", "broadcast_closes_each_evicted_once", "broadcast_closes_exactly",
             "sentTo_slow_disjoint", "reachable_wf", "sim_empty", "sim_register", "sim_remove", "sim_unregister", "sim_broadcast", "coverage"]]
+TIE_HUB = TIE_HUB + [(f"TieHubE2E.{n}", "Relay.Tie.HubE2E") for n in
+                     ["e2e_inv", "e2e_no_send_on_closed", "e2e_no_double_close", "e2e_closed_iff_removed", "e2e_closed_exactly_once",
+                      "e2e_closed_only_registered", "e2e_filed_registered", "e2e_queue_bounded", "e2e_isolation_no_echo", "e2e_send_at_time",
+                      "e2e_channel_owner_unique", "e2e_no_duplicate_delivery", "e2e_sendLog_eq_outs", "register_files"]]
 TIE_HUB_NOTE = ("HUB TRANSLATION: the three cases of Hub.run's select and Hub.remove (internal/crossbar) are translated to Lean on every run "
                 "(Relay/Extracted/GenCrossbar.lean) and proved, for every map iteration order and every choice of which send queues are full, to send a "
                 "message exactly once to exactly the other members filed under the sender's topic that have room, to drop exactly the ones that have not "
                 "(closing each send channel once), and to refine the hand-written hub model step by step (Relay/Tie/Hub.lean: sim_register / "
-                "sim_remove / sim_broadcast). ")
+                "sim_remove / sim_broadcast). END TO END (Relay/Tie/HubE2E.lean): the translated cases composed with the bounded send queues, over EVERY event "
+                "history in which serveWs's discipline holds (each registered client is a new object with a new send channel): the hub never sends on a channel "
+                "it has closed and never closes one twice (both would panic), a registered client is either still filed or its channel was closed exactly once, "
+                "queues never exceed their capacity, every send ever made went to a member of the sender's topic other than the sender, no message is delivered "
+                "twice by one broadcast. ")
 TIE_NOTE = ("TRANSLATOR TIE: internal/deny, internal/ttlcode, internal/chanmap, the scope / required-claims decisions, the session handler and the four admin handlers of internal/access, and internal/permission are translated to Lean on every run and proved, for all states, arguments and map "
             "iteration orders, to be the store models this property's model builds on (Relay/Tie/*.lean). ")
 TIE_ASSUMPTION = "translator vocabulary (Relay/Base/GoLite.lean): int64 as unbounded Int, pointer receiver as threaded value, mutex calls are not data (lock discipline: C12)"
